@@ -15,9 +15,42 @@ fn ty_str(t: &syn::Type) -> String {
     t.to_token_stream().to_string().replace(' ', "")
 }
 
-fn spoilers_for(path: &str, fields: &[(String, String)]) -> Vec<String> {
+fn is_uint(t: &str) -> bool {
+    matches!(t, "u8" | "u16" | "u32" | "u64")
+}
+
+/// Spoilers one level down: scalar fields of a struct-typed field, of an optional struct and of
+/// the elements of a struct array (`structs` = the struct definitions of the same module).
+fn nested_spoilers(path: &str, f: &str, t: &str, structs: &BTreeMap<String, Vec<(String, String)>>) -> Vec<String> {
+    let mut v = Vec::new();
+    let acc = format!("v.{f}");
+    let (inner, kind) = if let Some(x) = t.strip_prefix("Vec<").and_then(|x| x.strip_suffix('>')) {
+        (x, 2)
+    } else if let Some(x) = t.strip_prefix("Option<").and_then(|x| x.strip_suffix('>')) {
+        (x, 1)
+    } else {
+        (t, 0)
+    };
+    if let Some(fields) = structs.get(inner) {
+        for (g, gt) in fields.iter().filter(|(_, gt)| is_uint(gt)) {
+            match kind {
+                0 => v.push(format!("|v: &mut {path}| {{ {acc}.{g} = {gt}::MAX; }}")),
+                1 => v.push(format!("|v: &mut {path}| {{ if let Some(x) = {acc}.as_mut() {{ x.{g} = {gt}::MAX; }} }}")),
+                _ => {
+                    v.push(format!("|v: &mut {path}| {{ if let Some(x) = {acc}.last_mut() {{ x.{g} = {gt}::MAX; }} }}"));
+                    v.push(format!("|v: &mut {path}| {{ if let Some(x) = {acc}.get_mut(1) {{ x.{g} = {gt}::MAX; }} }}"));
+                    v.push(format!("|v: &mut {path}| {{ if let Some(x) = {acc}.first().cloned() {{ {acc}.push(x.clone()); {acc}.push(x); }} if let Some(x) = {acc}.get_mut(1) {{ x.{g} = {gt}::MAX; }} }}"));
+                }
+            }
+        }
+    }
+    v
+}
+
+fn spoilers_for(path: &str, fields: &[(String, String)], structs: &BTreeMap<String, Vec<(String, String)>>) -> Vec<String> {
     let mut v = Vec::new();
     for (f, t) in fields {
+        v.extend(nested_spoilers(path, f, t, structs));
         let acc = format!("v.{f}");
         match t.as_str() {
             "u8" | "u16" | "u32" | "u64" => {
@@ -147,7 +180,7 @@ fn main() {
                 continue;
             }
             let path = format!("m_{m}::{t}");
-            let sp = spoilers_for(&path, fields);
+            let sp = spoilers_for(&path, fields, &structs);
             writeln!(reg, "    v.push(buflaws::laws::ops::<{path}>(\"{m}\", \"{t}\", vec![").unwrap();
             for s in sp {
                 writeln!(reg, "        Box::new({s}),").unwrap();
@@ -155,7 +188,7 @@ fn main() {
             writeln!(reg, "    ]));").unwrap();
             for var in &variants {
                 let vpath = format!("tierd_mods::{var}{m}::{t}");
-                let sp = spoilers_for(&vpath, fields);
+                let sp = spoilers_for(&vpath, fields, &structs);
                 writeln!(reg, "    v.push(buflaws::laws::ops::<{vpath}>(\"{var}{m}\", \"{t}\", vec![").unwrap();
                 for s in sp {
                     writeln!(reg, "        Box::new({s}),").unwrap();
